@@ -237,6 +237,127 @@ def run(chk: lib.Check):
                                   {"model": spec["name"], "links": text, "n": n})
         del model
 
+    # ---------- (3b) list-valued reference attributes edited through the model API, on a copy split into fragment files (paths with
+    # spaces, non-ASCII names, nested folders): after every insert / append / delete / assignment the attribute text splits into links of
+    # Capella's form which resolve, in order, to exactly the members
+    import shutil
+    import capellambse
+    import fragmenter
+    import graph
+    from capellambse.model import _descriptors as D
+    for spec_f in [s_ for s_ in corpus.model_specs(chk.tier) if "path" in s_ and "resources" not in s_][: 1 if quick else 3]:
+        with lib.scratch("c05frag-") as td:
+            src_ = pathlib.Path(spec_f["path"]).parent
+            shutil.copytree(src_, td / "m", ignore=shutil.ignore_patterns("*.license"))
+            capella_ = next(p_.name for p_ in src_.glob("*.capella"))
+            plan_ = corpus.load(spec_f)
+            cands_ = []
+            for t_ in plan_._loader.trees.values():
+                if t_.fragment_type.name != "SEMANTIC":
+                    continue
+                for e in t_.root.iter():
+                    ty_ = e.get(XSI_TYPE) if isinstance(e.tag, str) else None
+                    if ty_ and e.get("id") and len(e) >= 3 and (ty_.endswith("Pkg") or ty_.endswith("Component")) and e.getparent() is not None:
+                        cands_.append((len(list(e.iterancestors())), e.get("id")))
+            del plan_
+            if len(cands_) < 3:
+                continue
+            chosen_ = [u for _, u in sorted(rng.sample(cands_, min(7, len(cands_))))]
+            dirs_ = ["", "fragments/", "sub dir/é ü/", "a/b/c/"]
+            picks_ = [(u, dirs_[i_ % len(dirs_)] + f"F {i_} ä.capellafragment") for i_, u in enumerate(chosen_)]
+            try:
+                fragmenter.fragment_model(td / "m", capella_, pathlib.Path(spec_f["path"]).name, picks_)
+                fm = capellambse.MelodyModel(str(td / "m" / pathlib.Path(spec_f["path"]).name))
+            except Exception as ex:  # noqa: BLE001
+                chk.broken.append(f"harness: fragmented copy of {spec_f['name']} could not be built/loaded: {ex!r}")
+                continue
+            fl = fm._loader
+            frag_of_root = {id(t_.root): k_ for k_, t_ in fl.trees.items()}
+
+            def frag_of(e):
+                while e.getparent() is not None:
+                    e = e.getparent()
+                return frag_of_root[id(e)]
+            # holders: objects with a populated list-valued AttrProxy relation; candidates for insertion: members of such lists, by class
+            holders = []
+            by_cls = collections.defaultdict(list)
+            for t_ in fl.trees.values():
+                if t_.fragment_type.name != "SEMANTIC":
+                    continue
+                for e in t_.root.iter():
+                    if not isinstance(e.tag, str) or not e.get("id") or not e.get(XSI_TYPE):
+                        continue
+                    try:
+                        o = capellambse.model.ModelElement.from_model(fm, e)
+                    except Exception:  # noqa: BLE001
+                        continue
+                    by_cls[type(o)].append(o)
+                    for n_, a_ in graph.list_relations(o):
+                        if isinstance(a_, D.AttrProxyAccessor) and getattr(a_, "aslist", None) is not None and e.get(a_.attr):
+                            holders.append((o, n_, a_))
+            rng.shuffle(holders)
+            n_ops = 0
+            for o, n_, a_ in holders[: 60 if quick else 400]:
+                try:
+                    lst = getattr(o, n_)
+                    cur = [x.uuid for x in lst]
+                except Exception:  # noqa: BLE001
+                    continue
+                if not cur:
+                    continue
+                mcls = type(lst[0])
+                pool_ = [x for x in by_cls.get(mcls, []) if x.uuid not in cur]
+                # prefer candidates stored in another file than the holder
+                far_ = [x for x in pool_ if frag_of(x._element) != frag_of(o._element)]
+                for _ in range(3):
+                    lst = getattr(o, n_)
+                    cur = [x.uuid for x in lst]
+                    op_ = rng.choice(["insert", "insert", "insert", "append", "delete", "assign"])
+                    cand_ = rng.choice(far_) if far_ and rng.random() < 0.8 else (rng.choice(pool_) if pool_ else None)
+                    exp = list(cur)
+                    try:
+                        if op_ == "insert" and cand_ is not None and cand_.uuid not in cur:
+                            i_ = rng.randint(0, len(cur))
+                            lst.insert(i_, cand_)
+                            exp.insert(i_, cand_.uuid)
+                        elif op_ == "append" and cand_ is not None and cand_.uuid not in cur:
+                            lst.append(cand_)
+                            exp.append(cand_.uuid)
+                        elif op_ == "delete" and len(cur) > 1:
+                            i_ = rng.randrange(len(cur))
+                            del lst[i_]
+                            del exp[i_]
+                        elif op_ == "assign" and cand_ is not None and cand_.uuid not in cur:
+                            exp = [cand_.uuid] + list(reversed(cur))
+                            setattr(o, n_, [fm.by_uuid(u) for u in exp])
+                        else:
+                            continue
+                    except Exception as ex:  # noqa: BLE001
+                        stats[f"api-list-edit-raises:{type(ex).__name__}"] += 1
+                        break
+                    n_ops += 1
+                    stats[f"api-list-edits:{op_}"] += 1
+                    text = o._element.get(a_.attr, "")
+                    cross_ = sum(1 for u in exp if frag_of(fl[u]) != frag_of(o._element))
+                    stats["api-list-members-in-another-file"] += cross_
+                    chk.note_case(("api-list", spec_f["name"], o.uuid, n_, op_, n_ops), nontrivial=cross_ > 0 and len(exp) > 1)
+                    try:
+                        parts_ = list(helpers.split_links(text))
+                        got = [x.get("id") for x in fl.follow_links(o._element, text)]
+                        api = [x.uuid for x in getattr(o, n_)]
+                    except Exception as ex:  # noqa: BLE001
+                        parts_, got, api = [], ex, None
+                    okform = all(LINK_RE.match(p_) for p_ in parts_) and len(parts_) == len(exp)
+                    for p_, u in zip(parts_, exp):
+                        m_ = LINK_RE.match(p_)
+                        if m_ and bool(m_.group(2)) != (frag_of(fl[u]) != frag_of(o._element)):
+                            okform = False
+                    if got != exp or api != exp or not okform:
+                        chk.violation(f"api-list:{op_}", f"after {op_} on {type(o).__name__}.{n_} the attribute {a_.attr}={text!r} does not hold, in order, links of Capella's "
+                                      f"form to {exp} (resolves to {got!r})", {"model": spec_f["name"], "holder": o.uuid, "relation": n_, "op": op_, "expected": exp,
+                                                                               "text": text, "layout": picks_})
+                        break
+            del fm
     chk.correspond(imports, "w_create_link", create_cases, tag="C05_create",
                    describe=lambda i: {"from/to/visual/incl/type/id": create_cases[i][0]})
     chk.correspond(imports, "w_resolve_fragment", resolve_cases, tag="C05_resolve")
@@ -285,6 +406,7 @@ def run(chk: lib.Check):
         "pairs": stats["pairs"], "cross_fragment_pairs": stats["cross"], "same_fragment_pairs": stats["same"],
         "link_lists": stats["lists"], "corpus_links_reproduced_verbatim": verbatim_total - verbatim_bad,
         "corpus_links_total": verbatim_total, "corpus_links_unresolvable(not loaded)": stats["verbatim_unresolvable"],
+        "list_attributes_edited_through_the_model_API_on_a_fragmented_copy": {k: v for k, v in sorted(stats.items()) if k.startswith("api-list")},
         "rule": "stratified sample of elements (every fragment x every type present) -> all ordered pairs, under the real "
                 "fragment layout and under generated layouts (depth 0-4, awkward names: space, %, non-ASCII); every reference "
                 "attribute/href Capella wrote is regenerated and compared verbatim; non-trivial = cross-fragment",
